@@ -132,6 +132,82 @@ def put_here_cases(rng, n):
     return out
 
 
+OOP = ("gzip", "bzip2", "lzma")
+
+
+def gen_write_history(rng):
+    """sequential vs random WRITES on every writable encoding: absolute gd_putdata (inside, at and past the end --
+    a gap), write-mode gd_seek SET/CUR/END to every interesting position (beginning, old end, current end, where the
+    pointer is, where an out-of-place encoding's read side was left, +-1, anywhere) followed by gd_tell (also of a
+    LINCOM of the field), gd_putdata at GD_HERE and gd_tell; closes in between; finally close, reopen, gd_eof and
+    read everything.  -> (case, [(harness line, expected answer or None)])
+    Rules: gd_seek(3) (a write-mode seek returns and establishes the position asked; seek + put(HERE) = absolute put;
+    past the end the out-of-place encodings pad at once, the in-place one when data are written), gd_putdata(3)
+    (pointer after the last sample written; a gap is zero filled), gd_raw_close(3)."""
+    enc = rng.choice(["none", "sie", "gzip", "bzip2", "lzma", "gzip", "bzip2", "lzma"])
+    spf = rng.choice([1, 1, 2]); fo = rng.choice([0, 0, 2]); FO = fo * spf
+    ln = rng.randint(4, 40)
+    base = [(7 * k) % 251 for k in range(ln)]
+    data = list(base)        # samples from FO on
+    ptr = FO                 # the field's I/O pointer by the rules
+    steps = []
+    nv = [0]; wrote = False
+
+    def vals(k):
+        nv[0] += 1
+        return [(100 + 10 * nv[0] + j) % 256 for j in range(k)]
+
+    def put(at_abs, vs):
+        j = at_abs - FO
+        if j > len(data): data.extend([0] * (j - len(data)))
+        data[j:j + len(vs)] = vs
+    for _ in range(rng.randint(2, 7)):
+        eof = FO + len(data)
+        u = rng.random()
+        cand = [FO, eof, eof - 1, eof + 1, ptr, ptr - 1, ptr + 1, FO + ln, FO + ln - 1, FO + ln + 1, rng.randint(FO, eof + 6), rng.randint(FO, eof)]
+        t = max(FO, rng.choice(cand))
+        k = rng.randint(1, 6)
+        if u < 0.35:
+            vs = vals(k)
+            steps.append(("p a %d %d u8 %s" % (t, k, " ".join(map(str, vs))), "p %d 0" % k)); put(t, vs); ptr = t + k; wrote = True
+            steps.append(("t a", "t %d 0" % ptr))
+        elif u < 0.85:
+            if enc == "sie": t = min(t, eof)      # what a .sie file holds after a write-mode seek past its end is C18's business
+            w = rng.choice("SSSCE")
+            off = t if w == "S" else t - ptr if w == "C" else t - eof
+            steps.append(("s a %d %s 1" % (off, w), "s %d 0" % t)); ptr = t; wrote = True
+            if enc in OOP and t - FO > len(data): data.extend([0] * (t - FO - len(data)))
+            steps.append(("t a", "t %d 0" % ptr))
+            if rng.random() < 0.3: steps.append(("t l", "t %d 0" % ptr))
+            if rng.random() < 0.8:
+                vs = vals(k)
+                steps.append(("p a H %d u8 %s" % (k, " ".join(map(str, vs))), "p %d 0" % k)); put(t, vs); ptr = t + k
+                steps.append(("t a", "t %d 0" % ptr))
+        elif u < 0.93 and not wrote:
+            steps.append(("e a", "e %d 0" % eof))
+        else:
+            steps.append((rng.choice(["c a", "f a"]), None)); ptr = FO
+            steps.append(("t a", "t %d 0" % ptr))
+    full = [0] * FO + data
+    steps.append(("X", None))
+    steps.append(("e a", "e %d 0" % len(full)))
+    steps.append(("g a 0 %d u8" % (len(full) + 20), ("g %d 0 %s" % (len(full), " ".join(map(str, full)))).strip()))
+    case = dict(enc=enc, spf=spf, foff=fo, raws=[dict(name="a", type="UINT8", vals=base)],
+                derived=[dict(name="l", kind="L", m=1, b=0, **{"in": "a"})], ops=[])
+    return case, steps
+
+
+def run_write_history(exe, d, case, steps):
+    """-> None or (step index, call, expected, got), and the answers"""
+    C.make_dirfile(d, case)
+    rc, out = vlib.sh([exe, d], inp=("\n".join(["o 1"] + [s for s, _ in steps]) + "\n").encode(), timeout=20)
+    lines = out.strip().split("\n")[1:]
+    for i, ((s, exp), got) in enumerate(zip(steps, lines)):
+        if exp is not None and got.strip() != exp: return (i, s, exp, got.strip()), lines
+    if len(lines) != len(steps): return (len(lines), "-", "an answer", "process died rc=%s %s" % (rc, out[-200:].replace("\n", " "))), lines
+    return None, lines
+
+
 def main():
     chk = vlib.Check("C17")
     C.load_staged_known(chk)
@@ -236,6 +312,22 @@ def main():
                 enc, spf, fo, at, at, vals, ln, here[1:5], cur[1:5], ab[1:3], want[:60]),
                 {"kind": "impl-vs-spec", "enc": enc, "spf": spf, "frameoffset": fo, "len": ln, "at": at, "vals": vals, "here": here, "cur": cur, "abs": ab, "want": want})
             break
+
+    # 3b. write histories: gaps, write-mode seeks back to every interesting position, GD_HERE writes, on all encodings
+    nwh = 0; wh_bad = None
+    for it in range(250 if not chk.thorough else 5000):
+        case, steps = gen_write_history(rng)
+        bw, lines = run_write_history(exe, os.path.join(work, "wh"), case, steps)
+        nwh += 1; evals += len(lines)
+        if bw and wh_bad is None: wh_bad = (case, steps, bw, lines)
+    chk.cov["write_histories"] = nwh
+    if wh_bad:
+        case, steps, (i, call, exp, got), lines = wh_bad
+        found_any = True
+        chk.violation("C17/write-history/%s" % case["enc"], "%s spf %d frameoffset %d, %d samples: after %s the call `%s` answers `%s`, the pointer rules say `%s`" % (
+            case["enc"], case["spf"], case["foff"], len(case["raws"][0]["vals"]), [s_ for s_, _ in steps[:i]], call, got[:100], exp[:100]),
+            {"kind": "impl-vs-spec", "case": case, "calls": ["o 1"] + [s_ for s_, _ in steps[:i + 1]], "answers": lines[:i + 1], "expected": exp, "got": got,
+             "how": "checks/C02.py make_dirfile(case) + harness/C02/gdhist.c fed with `calls`"})
 
     # 4. write then read through the same handle, close, reopen, compare (out-of-place encodings keep
     #    the read and the write position in different files)
